@@ -114,6 +114,12 @@ def c15_pairs(cases):
                       and outer['v'][1] == 0 and outer['v'][2] == 0 and inner['v'][1] == 0 and inner['v'][2] == 0 and abs(outer['v'][0] + inner['v'][0]) <= 1e-9 * (1 + od + radius)
                       and abs(inner['v'][0] - (od / 2 + radius)) <= 1e-9 * (1 + od + radius))
             except (KeyError, IndexError): ok = False
+            try:
+                degrees = a[2] if op == 511 else a[1]
+                ang = t['children'][0]['children'][0].get('angle')
+                if ang is None or abs(ang - degrees) > 1e-12 * (1 + abs(degrees)):
+                    fails.append(fail('curved_body_has_given_bend_angle', op=op, args=list(a), emitted_angle=ang, degrees=degrees))
+            except (KeyError, IndexError): pass
             if not ok: fails.append(fail('curved_pipe_starts_centred_on_origin', op=op, args=list(a), outer=t.get('v'), inner=(t['children'][0]['children'][0]['children'][0].get('v') if ok is False and t.get('children') else None)))
             if op == 511 and s is not None:
                 sec = t['children'][0]['children'][0]['children'][0]['children'][0]
